@@ -1,5 +1,5 @@
 #!/usr/bin/env python3
-"""Evaluate seeded breaking changes delivered by sub-agents under /tmp/seed/<ID>/out/<n>/.
+"""Evaluate the seeded breaking changes kept under /verif/seeded/<ID>-<n>/ (delivered by sub-agents).
 For each: confirm in a scratch worktree (compiles, suite ok, demo fails with / passes without),
 then apply to /repo, run ./check <ID> and undo. Results go to /verif/seeded/<ID>-<n>/meta.json."""
 import os, subprocess, sys, json, shutil, glob, re
@@ -13,21 +13,17 @@ def sh(*a, cwd=None, timeout=900):
 def main():
     only = [a for a in sys.argv[1:] if not a.startswith("--")]
     os.makedirs("/root/scratch", exist_ok=True)
-    for d in sorted(glob.glob("/tmp/seed/C*/out/*")):
-        if not os.path.exists(d + "/patch.diff"):
+    for dst in sorted(glob.glob("/verif/seeded/C*-*")):
+        if not os.path.exists(dst + "/patch.diff"):
             continue
-        pid = d.split("/")[3]; n = d.split("/")[5]
-        name = f"{pid}-{n}"
+        name = os.path.basename(dst)
+        pid = name.split("-")[0]
         if only and name not in only and pid not in only:
             continue
-        if "--new" in sys.argv and os.path.exists(f"/verif/seeded/{name}/meta.json") and json.load(open(f"/verif/seeded/{name}/meta.json")).get("confirmed"):
+        if "--new" in sys.argv and os.path.exists(f"{dst}/meta.json") and json.load(open(f"{dst}/meta.json")).get("confirmed"):
             continue
-        dst = f"/verif/seeded/{name}"
-        os.makedirs(dst, exist_ok=True)
-        for f in ("patch.diff", "demo_test.go", "notes.md"):
-            if os.path.exists(f"{d}/{f}"):
-                shutil.copy(f"{d}/{f}", f"{dst}/{f}")
-        meta = {"id": name, "property": pid, "source": "independent sub-agent given only the property text and a scratch worktree"}
+        old_meta = json.load(open(f"{dst}/meta.json")) if os.path.exists(f"{dst}/meta.json") else {}
+        meta = {"official_check": old_meta.get("official_check"), "id": name, "property": pid, "source": "independent sub-agent given only the property text and a scratch worktree"}
         sh("git", "-C", "/repo", "worktree", "remove", "--force", WT)
         r = sh("git", "-C", "/repo", "worktree", "add", "--detach", WT, "HEAD")
         try:
